@@ -1,12 +1,242 @@
-// Package c10 decides C10 (see /verif/DESIGN.md §7).
+// Package c10 decides C10: the single sequencer's batch queue is a durable FIFO with
+// exactly-once delivery (see /verif/DESIGN.md §7).
+//
+// Files: model.go (set-of-states bounded FIFO reference model with the trigger predicates and
+// predicted shapes of the two recorded findings), seq.go (generator, execution of sequential
+// histories with restarts and crashes against the real sequencer, shrinker), conc.go
+// (concurrent clients, porcupine, conservation).
 package c10
 
-import "verifharness/vk"
+import (
+	"fmt"
+	"strings"
+	"sync"
+
+	"verifharness/vk"
+	"verifharness/world"
+)
 
 // Level is the verification level claimed for this property.
 const Level = "exploration"
 
+type reporter struct {
+	r    *vk.Run
+	mu   sync.Mutex
+	seen map[string]int
+}
+
+// limit returns true while fewer than n reports with this signature were made.
+func (rp *reporter) limit(sig string, n int) bool {
+	rp.mu.Lock()
+	defer rp.mu.Unlock()
+	rp.seen[sig]++
+	return rp.seen[sig] <= n
+}
+
+func (rp *reporter) seq(h History, v *Verdict) {
+	r := rp.r
+	for c, n := range v.hits {
+		r.HitN(c, n)
+	}
+	r.Count("ops_executed", int64(len(v.Trace)))
+	r.Count("restarts", int64(v.nRest))
+	r.Count("restarts_"+h.Region, int64(v.nRest))
+	r.Count("crashes", int64(v.nCrash))
+	r.Count("rejected_submissions", int64(v.nReject))
+	r.Count("histories_"+h.Region, 1)
+	nontrivial := v.nReject+v.nRest+v.nCrash > 0
+	r.Eval(h.Region+":"+h.kinds(), nontrivial, map[string]any{"region": h.Region, "queue_bound": h.Bound, "ops": opStrings(h.Ops), "verdict": v.Kind})
+	switch v.Kind {
+	case "pass":
+		if v.TrigA || v.TrigB {
+			r.Count("trigger_history_without_failure", 1)
+		}
+	case "inconclusive":
+		r.Inconclusive(fmt.Sprintf("sequential history %d: %s", h.ID, v.Detail))
+	case "finding":
+		if h.Region == "clean" {
+			// cannot happen: no trigger point exists in a clean history
+			rp.violation(h, v, "fifo-model", "deviation flagged in a history without trigger point: "+v.Detail)
+			return
+		}
+		for _, id := range v.IDs {
+			r.Count("reproduced:"+id, 1)
+			// when the finding is not listed every reproduction would be a VIOLATION line: report
+			// the first (shrunk) one per id and count the others
+			first := rp.limit("finding/"+id, 1)
+			if !first && !r.IsKnown(id) {
+				continue
+			}
+			small, sv := h, v
+			if first {
+				small = shrink(h, hasFinding(id))
+				small = shrink(small, onlyFinding(id))
+				sv = Judge(small)
+			}
+			w := witness(small, sv)
+			w["trigger"] = triggerText(id)
+			reporting(func() {
+				r.Finding(id, clauseOf(id), fmt.Sprintf("bound=%d history=[%s] (+drain): %s", small.Bound, strings.Join(opStrings(small.Ops), ", "), sv.Detail), w)
+			})
+		}
+	case "violation":
+		rp.violation(h, v, v.Clause, v.Detail)
+	}
+}
+
+func (rp *reporter) violation(h History, v *Verdict, clause, detail string) {
+	if !rp.limit("violation/"+clause, 3) {
+		rp.r.Count("violations_not_listed:"+clause, 1)
+		return
+	}
+	small, sv := h, v
+	if v.Kind == "violation" {
+		small = shrink(h, sameVerdict(v))
+		sv = Judge(small)
+		detail = sv.Detail
+	}
+	w := witness(small, sv)
+	w["original_history"] = h
+	reporting(func() {
+		rp.r.Violation(clause, fmt.Sprintf("region=%s bound=%d history=[%s]: %s", h.Region, small.Bound, strings.Join(opStrings(small.Ops), ", "), detail), w)
+	})
+}
+
+func clauseOf(id string) string {
+	if id == "C10-reload-order" {
+		return "fifo-order-across-restart"
+	}
+	return "durable-exactly-once"
+}
+
+func triggerText(id string) string {
+	if id == "C10-reload-order" {
+		return "a restart (or crash-restart) while >= 2 batches are queued"
+	}
+	return "two batches with equal contents queued at the same time, and a restart (or crash-restart) while a copy is still queued"
+}
+
+func witness(h History, v *Verdict) map[string]any {
+	a, b := Triggers(h)
+	return map[string]any{"history": h, "verdict": v, "trigger_content_hash_key": a, "trigger_reload_order": b}
+}
+
+func opStrings(ops []Op) []string {
+	out := make([]string, len(ops))
+	for i, o := range ops {
+		out[i] = o.String()
+	}
+	return out
+}
+
+func pool(n int, f func(i int)) {
+	var wg sync.WaitGroup
+	ch := make(chan int)
+	for w := 0; w < 12; w++ {
+		wg.Add(1)
+		go func() {
+			defer wg.Done()
+			for i := range ch {
+				f(i)
+			}
+		}()
+	}
+	for i := 0; i < n; i++ {
+		ch <- i
+	}
+	close(ch)
+	wg.Wait()
+}
+
 // Run is the check entry point.
 func Run(r *vk.Run) {
-	r.Rule = "not implemented yet"
+	world.Silence()
+	r.Rule = "sequential: seeded histories of 20-80 operations {submit(batch from the alphabet z|a|m, or unique) | submit empty/nil | submit foreign chain id | next | restart | submit/next cut by a crash or followed by one} on the real single sequencer over MemDS, queue bound 1|2|5|unbounded, then drain + restart; " +
+		"non-trivial = >= 1 rejected, restarted or crashed operation; distinct by (region, bound, operation-kind sequence). " +
+		"concurrent: 2-6 client goroutines with unique batch ids, <= 60 recorded operations; always non-trivial; distinct by hash of the recorded history (client, op, output, call, return). " +
+		"Regions: clean = no restart is a trigger point (no tainted content queued, <= 1 batch queued); content-hash-key = trigger A holds at some restart; reload-order = trigger B holds and A never."
+	r.Assume("datastore is the in-memory MemDS double (durable Put/Delete, ordered Query); a crash = every datastore call fails from the chosen write on, restart = new Sequencer over the same image")
+	r.Assume("the output of an operation cut by a crash is seen by nobody; the model allows both outcomes for it")
+	r.Assume("the real queue prints a failed durable delete with fmt.Printf; around a GetNextBatch that is cut by a crash the process-wide stdout is pointed at /dev/null (all reporting of this check is serialised with that)")
+	r.Assume("concurrent histories are time-stamped by one atomic counter taken before the call and after the return")
+	rp := &reporter{r: r, seen: map[string]int{}}
+
+	nSeq := r.N(300, 10000)
+	nClean := nSeq * 6 / 10
+	nA := nSeq * 2 / 10
+	nB := nSeq - nClean - nA
+	nConc := r.N(100, 3000)
+
+	// the case lists are a function of the seed only
+	rng := r.Rand("sequential")
+	clean := make([]History, nClean)
+	for i := range clean {
+		clean[i] = genSeq(rng, i, "clean")
+	}
+	regA := directed()[:3]
+	for i := 0; i < nA; i++ {
+		regA = append(regA, genSeq(rng, nClean+i, "content-hash-key"))
+	}
+	regB := directed()[3:]
+	for i := 0; i < nB; i++ {
+		regB = append(regB, genSeq(rng, nClean+nA+i, "reload-order"))
+	}
+	crng := r.Rand("concurrent")
+	conc := make([]CHistory, nConc)
+	for i := range conc {
+		conc[i] = genConc(crng, i)
+	}
+
+	r.Require("fifo-model", int64(nClean*10))
+	r.Require("delivery", int64(nClean*3))
+	r.Require("no-trace", int64(nClean))
+	r.Require("restart-continuity", int64(nClean/4))
+	r.Require("crash-atomicity", int64(nClean/4))
+	r.Require("bound", int64(nClean))
+	r.Require("no-reappearance", int64(nClean))
+	r.Require("linearizable", int64(nConc*8/10))
+	r.Require("conservation", int64(nConc*8/10))
+
+	// 1. clean region: every failure is a violation
+	pool(len(clean), func(i int) { rp.seq(clean[i], Judge(clean[i])) })
+
+	// 2. concurrent histories (unique ids: outside both trigger regions)
+	var cmu sync.Mutex
+	opsTotal := 0
+	pool(len(conc), func(i int) {
+		h := conc[i]
+		v := JudgeConc(h)
+		for c, n := range v.hits {
+			r.HitN(c, n)
+		}
+		cmu.Lock()
+		opsTotal += v.nOps
+		cmu.Unlock()
+		r.Count("concurrent_ops_overlapping_another_client", int64(v.overlap))
+		r.Count("concurrent_rejected_full", int64(v.nFull))
+		r.Count("histories_concurrent", 1)
+		r.Eval("conc:"+v.sig, true, map[string]any{"clients": len(h.Clients), "queue_bound": h.Bound, "restart_before_drain": h.Restart, "records": v.Records, "drain": v.Drain})
+		switch v.Kind {
+		case "inconclusive":
+			r.Inconclusive(fmt.Sprintf("concurrent history %d: %s", h.ID, v.Detail))
+		case "violation":
+			if rp.limit("cviolation/"+v.Clause, 3) {
+				reporting(func() {
+					r.Violation(v.Clause, fmt.Sprintf("concurrent history %d (%d clients, bound %d): %s", h.ID, len(h.Clients), h.Bound, v.Detail), map[string]any{"history": h, "verdict": v})
+				})
+			} else {
+				r.Count("violations_not_listed:"+v.Clause, 1)
+			}
+		}
+	})
+	r.Count("concurrent_ops_recorded", int64(opsTotal))
+
+	// 3. trigger regions, exercised separately
+	// (the directed smallest histories first, so that they are the ones reported)
+	for _, h := range append(regA[:3:3], regB[:2]...) {
+		rp.seq(h, Judge(h))
+	}
+	regA, regB = regA[3:], regB[2:]
+	pool(len(regA), func(i int) { rp.seq(regA[i], Judge(regA[i])) })
+	pool(len(regB), func(i int) { rp.seq(regB[i], Judge(regB[i])) })
 }
